@@ -728,8 +728,10 @@ fn ent_op(g: &mut Gen, r: &dyn Runner, tgt: &str, absent_pct: u64) -> String {
             None => format!("{} values_mut_set {}", tgt, 700 + g.rng.below(50)),
         }
     } else if x < 98 {
-        format!("{} into_keys {}", tgt, g.rng.below(8))
+        format!("{} into_keys{} {}", tgt, if g.rng.chance(1, 3) { "_fold" } else { "" }, g.rng.below(8))
     } else if x < 99 {
+        // (no fold variant: `IntoValues::fold` drops each key AFTER the consumer ran, `next` before — the
+        // two differ in which destructor call a scheduled destructor panic hits)
         format!("{} into_values {}", tgt, g.rng.below(8))
     } else {
         format!("{} values_mut_set {}", tgt, 700 + g.rng.below(50))
